@@ -62,6 +62,19 @@ func replayOther(c *caseWriter, kind string, tag int, rawArgs string) {
 				if g(h, 3) != 0 {
 					op.ttl = -op.ttl
 				}
+			case 7:
+				op.ip = optIPFrom(g(h, 1), g(h, 2))
+				op.ttl = time.Duration(g(h, 4))
+				if g(h, 3) != 0 {
+					op.ttl = -op.ttl
+				}
+			case 8:
+				op.ip = optIPFrom(g(h, 1), g(h, 2))
+				for _, b := range e {
+					op.busy = append(op.busy, uint32(b))
+				}
+				op.probeNs = 600 * time.Millisecond
+				op.ttl = time.Duration(g(h, 8))
 			case 3, 6:
 				op.ip = optIPFrom(g(h, 1), g(h, 2))
 			case 4:
